@@ -326,7 +326,7 @@ PROPS = {
         "level": "proof",
         "race": True,
         "extract": ["Calls", "Client", "Endpoint", "Auth"],
-        "extra_modules": ["QiVerif.Props.C04Forward", "QiVerif.Tie.ClientCall"],
+        "extra_modules": ["QiVerif.Props.C04Forward", "QiVerif.Props.C04ForwardPost", "QiVerif.Tie.ClientCall", "QiVerif.Tie.ClientObject"],
         "rule": "(a) server side, exact: a real server with two probe services counting executions (a hand-written object "
                 "behind the generic object dispatcher: echo / zero-argument tick; the generated PingPong stub), raw frames "
                 "of every message type x known / unknown service, object, action x good / truncated / random arguments, one "
